@@ -4,6 +4,7 @@ Handle all padding.
 
 from __future__ import annotations
 
+import numbers
 from typing import TYPE_CHECKING, Dict, Mapping, Optional, Tuple, Union
 
 import numpy as np
@@ -393,6 +394,13 @@ def pad(
     fill_value = grid._complete_user_kwargs_using_axis_defaults(
         fill_value, "fill_value"
     )
+    for ax in grid.axes:
+        if padding[ax] not in _XGCM_BOUNDARY_KWARG_TO_XARRAY_PAD_KWARG:
+            raise ValueError(
+                f"boundary must be one of {list(_XGCM_BOUNDARY_KWARG_TO_XARRAY_PAD_KWARG)}, but got {padding[ax]}"
+            )
+        if not isinstance(fill_value[ax], numbers.Real):
+            raise TypeError("fill value must be an integer or a float")
 
     # Exit without padding if all widths are zero
     if padding_width is None or all(
